@@ -21,7 +21,7 @@ CLAIM = dict(
          "or missing export name - do not occur in an output of the model encoder); encoder_panics_classified (the model encoder's "
          "graph-consistency panics are unreachable for reachable graphs: only the three index-bookkeeping sites remain, and XBadNode "
          "exactly as the rendering of a failed merge of an explicit import). Search: >= 400 accepted compositions per quick "
-         "run (graph-API histories incl. removal / unregistration over a library of 28 components: hand-shaped WAT and WIT-derived "
+         "run (graph-API histories incl. removal / unregistration over a library of 33 components: hand-shaped WAT and WIT-derived "
          "with records, variants, lists, options, results, enums, flags, resources, cross-interface and world-level `use`, versioned "
          "interface names on equal and different semver tracks; generated WAC documents; the repository's WAC fixtures), each encoded "
          "under define_components x validate; every returned binary is validated independently, ValidationFailure / panic / process "
@@ -292,7 +292,9 @@ def correspondence(im, mo):
             if "wac-graph/src/encoding.rs" not in real and mc not in ("PANIC",):
                 out.append(f"{m}: real panic outside the type encoder, model says {model}: {real[:120]}")
         elif rc == "E:ImportTypeMergeConflict":
-            if mc not in ("ok", "E:ImportTypeMergeConflict", "PANIC", "ORACLE"):
+            # a type-level merge failure between kinds of one class is not modelled (the model merges names and kind classes only):
+            # the model may go on to succeed or to report a later documented error
+            if mc not in ("ok", "E:ImportTypeMergeConflict", "E:ImplicitImportConflict", "PANIC", "ORACLE"):
                 out.append(f"{m}: real merge conflict, model says {model}")
         elif rc == "E:ValidationFailure":
             out.append(f"{m}: ValidationFailure with validation off")
@@ -425,9 +427,10 @@ def run(res, tier, seed, replay):
         rule="compositions = regression corpus (corpus/C01/cases.txt: witnesses of the known findings + must-be-valid cases) + the "
              "repository's WAC fixtures (tests/encoding, tests/resolution, examples) + random accepted graph-API histories (register / "
              "instantiate / define_type / import / alias / set+unset argument / export / unexport / name / remove_node / unregister; "
-             "rejected operations are partly kept) + generated WAC documents, all over a library of 28 components (12 of the C02 universe, "
-             "15 WIT-derived with records/variants/lists/options/results/enums/flags/resources/cross-interface and world-level use/"
-             "versioned interfaces on equal and different tracks, 1 hand-shaped WAT). Every composition is encoded 4 times "
+             "rejected operations are partly kept) + generated WAC documents, all over a library of 33 components (12 of the C02 universe, "
+             "19 WIT-derived with records/variants/lists/options/results/enums/flags/resources/cross-interface and world-level use/"
+             "versioned interfaces on equal and different tracks/sibling interfaces reusing type names with different shapes, 2 hand-shaped "
+             "WAT incl. one with three same-typed imports; histories set several arguments from one node and unset them in another order). Every composition is encoded 4 times "
              "(define_components x validate); evaluations = compositions x 4. non-trivial = encodable compositions with >= 2 "
              "instantiate items in the real output and at least one argument that comes from another instantiation, counted as "
              "distinct real item logs",
